@@ -33,8 +33,13 @@ def main():
             print(p, "exit", pr.returncode, sigs[:3], flush=True)
             if pr.returncode not in (0, 1):
                 res[p]["stderr"] = pr.stderr[-600:]
+        evp = os.path.join(sdir, "eval_%s.json" % tier)
+        if os.path.exists(evp):          # merge with earlier partial evaluations (latest result per check wins)
+            old = json.load(open(evp)).get("results", {})
+            old.update(res)
+            res = old
         out = {"seeded": sid, "tier": tier, "caught_by": sorted(p for p, v in res.items() if v["exit"] == 1), "results": res}
-        with open(os.path.join(sdir, "eval_%s.json" % tier), "w") as f:
+        with open(evp, "w") as f:
             json.dump(out, f, indent=1)
         print("caught by:", out["caught_by"])
     finally:
